@@ -229,15 +229,31 @@ def gen_damage_programs(r, n, big=0.02):
         ops = [w_oneshot(r.pick("sa"), algo, k1, d1), w_oneshot(r.pick("sa"), algo, k2, d2)]
         p1 = content_path(algo, d1)
         p2 = content_path(algo, d2)
+        # sometimes the entry was already extracted (linked / copied) while it was still good: a later
+        # checked extraction to the SAME destination must verify again, not trust what is there
+        prelinked, aliased = None, False
+        if r.chance(0.35):
+            prelinked = "out/pre"
+            how = r.pick(['hard_link', 'hard_link', 'copy'])
+            aliased = how == "hard_link"       # shares the content file's inode: in-place damage shows through
+            ops.append(f"{how} {r.pick('sa')} c0 {hx(k1)} out/pre")
         if r.chance(0.85):
             dmg, desc = damage_ops(r, p1, d1, other=(p2, d2))
         else:
             dmg, desc = [], "pristine"
         ops += dmg
         pre = {}
+        if prelinked:
+            for fl in "sa":
+                ops += [f"hard_link {fl} c0 {hx(k1)} out/pre", "cat out/pre",
+                        f"copy {fl} c0 {hx(k1)} out/pre", "cat out/pre"]
         ops += retrieval_ops(r, ids, k1, sri_tok(algo, d1), pre=pre)
-        progs.append(Program(f"damage{i}", ops, tags={"algo": algo, "data": d1, "damage": desc, "key": k1, "pre": pre,
-                                                       "damaged": bool(dmg)}))
+        # the model's hard link copies the node (no inode sharing), so programs that damage an aliased
+        # file in place are judged by the monitors only
+        progs.append(Program(f"damage{i}", ops, model=not (aliased and bool(dmg)),
+                             tags={"algo": algo, "data": d1, "damage": desc, "key": k1, "pre": pre,
+                                                       "damaged": bool(dmg), "prelinked": prelinked,
+                                                       "variety": ("prelinked", bool(prelinked), desc.split(" ")[0])}))
     return progs
 
 
@@ -286,8 +302,11 @@ def mon_checked_retrieval(rr):
                 if ename.startswith("copy") and len(ert) > 1 and int(ert[1]) != len(data):
                     out.append(Failure("wrong_count", i, f"{ename} returned {ert[1]} for {len(data)} bytes", sig={"op": ename}))
             elif ert[:2] == ["err", "integrity"]:
-                # C18: a failed check leaves nothing behind (a destination that existed keeps its old bytes)
-                if rt[0] == "ok" and (old is None or unhx(rt[1]) != old):
+                # C18: a failed check leaves nothing behind (a destination that existed keeps its old bytes;
+                # one that was linked to the content before the damage shares its inode and is not judged)
+                if edest == rr.prog.tags.get("prelinked"):
+                    pass
+                elif rt[0] == "ok" and (old is None or unhx(rt[1]) != old):
                     out.append(Failure("unverified_left_behind", i,
                                        f"{ename} failed verification but left a file at the destination",
                                        sig={"op": ename, "flavour_tok": efl}))
@@ -331,6 +350,25 @@ def gen_roundtrip_programs(r, n, big=0.03):
                 ops.append(f"read_hash {rf} c0 {st}"); reads.append(len(ops) - 1)
                 ops.append(f"exists {rf} c0 {st}")
             expect.append((widx, algo, d, reads, key))
+            # the stored copy is damaged behind the library's back, then the same data is written again:
+            # the write must leave the right bytes at the address (re-writing repairs), and read back
+            if r.chance(0.25) and len(d) > 0:
+                cp = content_path(algo, d)
+                ops.append(r.pick([f"truncate {cp} {r.randrange(len(d))}", f"put {cp} {hx(bytes([d[0] ^ 255]) + d[1:])}",
+                                   f"put {cp} {hx(d + b'x')}"]))
+                fl2 = r.pick("sa")
+                k2 = key if key is not None else None
+                if k2 is not None and r.chance(0.6):
+                    ops.append(w_oneshot(fl2, algo, k2, d))
+                else:
+                    ops.append(f"write_hash {fl2} c0 {algo} {hx(d)}"); k2 = None
+                widx2 = len(ops) - 1
+                reads2 = []
+                rf = r.pick("sa")
+                ops.append(f"read_hash {rf} c0 {st}"); reads2.append(len(ops) - 1)
+                if k2 is not None:
+                    ops.append(f"read {rf} c0 {hx(k2)}"); reads2.append(len(ops) - 1)
+                expect.append((widx2, algo, d, reads2, k2))
         ops.append("dump c0/content-v2")
         progs.append(Program(f"rt{i}", ops, tags={"expect": expect}))
     return progs
@@ -968,7 +1006,18 @@ def damage_bucket(r, frames):
     whole = b"".join(frames)
     kind = r.pick(["cut_last", "cut_any", "flip", "garbage_line", "nul_line", "invalid_utf8_line", "kill_newline",
                    "dup_fragment", "dup_fragment", "reorder", "crlf", "none", "overwrite_middle", "unicode_line",
-                   "unicode_line", "tabbed_line"])
+                   "unicode_line", "tabbed_line", "checksum_bit", "checksum_bit"])
+    if kind == "checksum_bit":
+        # one bit of one character of a record's 64-character checksum (for a hex letter, bit 0x20 turns it
+        # into its upper-case twin: still "the same digest" to a lenient comparison, but a damaged record)
+        i = r.randrange(len(frames))
+        fr = bytearray(frames[i])
+        letters = [j for j in range(1, 65) if chr(fr[j]) in "abcdef"]
+        if letters and r.chance(0.7):
+            j = r.pick(letters); fr[j] ^= 0x20
+        else:
+            j = r.randrange(1, 65); fr[j] ^= 1 << r.randrange(8)
+        return b"".join(frames[:i]) + bytes(fr) + b"".join(frames[i + 1:]), f"record {i} checksum character {j} altered"
     if kind == "cut_last":
         n = r.randrange(0, len(frames[-1]))
         return whole[:len(whole) - len(frames[-1]) + n], f"last record cut at {n}"
@@ -1520,6 +1569,18 @@ def gen_hostile_state_programs(r, n):
                     f"hard_link {fl} c0 {hx(k)} out/w{fl}{i}"]
         ops += ["list c0", w_oneshot("a", "sha256", k, d + b"2"), f"read s c0 {hx(k)}"]
         progs.append(Program(f"foreign-after-valid-{name}", ops, tags={"foreign_integrity": name, "variety": ("after", name)}))
+    # an index record whose size field is absurd (nothing ties it to the content): whole-buffer reads,
+    # streamed reads and extractions of that key must not try to honour it
+    for j, huge in enumerate([2**63 - 1, 2**63, 2**64 - 1, 2**60, 2**40]):
+        k = f"huge{j}".encode()
+        d = b"small content %d" % j
+        ops = [f"write_hash s c0 sha256 {hx(d)}",
+               f"index_insert {'sa'[j % 2]} c0 {hx(k)} sri={sri_tok('sha256', d)} time=1 size={huge} meta=- raw=-"]
+        for fi, fl in enumerate("sa"):
+            ops += [f"metadata {fl} c0 {hx(k)}", f"read {fl} c0 {hx(k)}", f"copy {fl} c0 {hx(k)} out/hz{fl}{j}",
+                    f"ropen {fl} c0 R{2 * j + fi + 1} {hx(k)}", f"rreadall R{2 * j + fi + 1}", f"rcheck R{2 * j + fi + 1}"]
+        ops += ["list c0"]
+        progs.append(Program(f"huge-size-{huge}", ops, tags={"variety": ("huge", huge)}))
     # wrong node kinds where files are expected
     for j, (what, mk) in enumerate([
             ("dir_at_bucket", lambda: [f"mkdir c0/{L.bucket_rel(b'k')}"]),
@@ -1570,6 +1631,20 @@ def gen_size_matrix(r):
                     ops += [f"read_hash s c0 {st}", f"read_hash a c0 {st}", "dump c0/content-v2", "dump c0/tmp"]
                     progs.append(Program(f"matrix{n}", ops, tags={"variety": (fl, keyed, rel, shape), "matrix": (rel, commit, algo, d)}))
                     n += 1
+            # declared sizes at and beyond the mapping threshold with far fewer bytes supplied: whatever
+            # preallocation the writer did must not reach the content area
+            for big in (G.MMAP, G.MMAP + 1, 3 * G.MMAP):
+                ids = G.Ids()
+                d = r.randbytes(r.pick([1, 1000, 70000]))
+                chunks = [d] if r.chance(0.5) else [d[:len(d) // 2], d[len(d) // 2:]]
+                algo = r.pick(L.ALGOS)
+                key = f"m{n}".encode()
+                _, ops = w_stream(ids, fl, key if keyed else None, d, [c for c in chunks if c], algo=algo, size=big)
+                commit = len(ops) - 1
+                st = sri_tok(algo, d)
+                ops += [f"read_hash s c0 {st}", f"read_hash a c0 {st}", "dump c0/content-v2", "dump c0/tmp"]
+                progs.append(Program(f"matrix{n}", ops, tags={"variety": (fl, keyed, "gt", big), "matrix": ("gt", commit, algo, d)}))
+                n += 1
     return progs
 
 
